@@ -67,20 +67,83 @@ def backward (d fuel n : Nat) (t : Tree) : List Item :=
   | (st, some it) => it :: iterPrev d fuel t n st
   | (_, none) => []
 
+theorem iterNext_after {t : Tree} {d fuel : Nat} (hwf : BranchesNonEmpty t) (hd : depth t ≤ d)
+    (hf : size t ≤ fuel) : ∀ (n : Nat) (st : Stack), VS t st → (after st).length ≤ n →
+      iterNext d fuel n st = after st
+  | 0, st, _, hn => by
+    have : after st = [] := List.length_eq_zero_iff.mp (by omega)
+    rw [this]; rfl
+  | n+1, st, hv, hn => by
+    have hspec := next_spec hwf hd fuel st hv (by have := VS_sizeAfter_lt hv; omega)
+    simp only [iterNext]
+    rcases hspec with ⟨_, ha, hnx⟩ | hres
+    · rw [hnx, ha]
+    · generalize next d fuel st = r at hres
+      obtain ⟨st', kv⟩ := r
+      cases kv with
+      | none => rw [hres.none_eq.2.2.1]
+      | some x =>
+        obtain ⟨hv', _, _, hL⟩ := hres.after_eq
+        simp only []
+        rw [hL, iterNext_after hwf hd hf n st' hv' (by rw [hL] at hn; simpa using hn)]
+
 /-- **First/Next visits every key exactly once, in tree (= ascending) order**, for every
     tree whose branches are non-empty — leaves may be empty, as after deletes in the same
     write transaction — and terminates within the stated fuel. -/
 theorem forward_enumerates (t : Tree) (d fuel n : Nat) (hwf : BranchesNonEmpty t)
     (hd : depth t ≤ d) (hf : size t ≤ fuel) (hn : (flatten t).length ≤ n) :
     forward d fuel n t = flatten t := by
-  sorry
+  have hres := first_spec (fuel := fuel) hwf hd hf
+  simp only [forward]
+  generalize first d fuel t = r at hres
+  obtain ⟨st', kv⟩ := r
+  cases kv with
+  | none => rw [hres.none_eq.2.2.1]
+  | some x =>
+    obtain ⟨hv', _, _, hL⟩ := hres.after_eq
+    simp only []
+    rw [hL, iterNext_after hwf hd hf n st' hv' (by rw [hL] at hn; simp at hn; omega)]
+
+theorem leafIn_ne_nil {st : Stack} (h : LeafIn st) : st ≠ [] := by
+  intro h'; rw [h'] at h; exact h
+
+theorem iterPrev_before {t : Tree} {d fuel : Nat} (hwf : BranchesNonEmpty t) (hd : depth t ≤ d)
+    (hf : size t ≤ fuel) : ∀ (n : Nat) (st : Stack), VS t st → st ≠ [] → (before st).length ≤ n →
+      iterPrev d fuel t n st = (before st).reverse
+  | 0, st, _, _, hn => by
+    have : before st = [] := List.length_eq_zero_iff.mp (by omega)
+    rw [this]; rfl
+  | n+1, st, hv, hne, hn => by
+    have hres := prev_spec hwf hd fuel st hv hne hf
+    simp only [iterPrev]
+    generalize prev d fuel t st = r at hres
+    obtain ⟨st', kv⟩ := r
+    cases kv with
+    | none => rw [hres.none_eq.1]; rfl
+    | some x =>
+      obtain ⟨hv', hin, _, hL⟩ := hres.found_eq
+      simp only []
+      rw [hL, iterPrev_before hwf hd hf n st' hv' (leafIn_ne_nil hin)
+        (by rw [hL] at hn; simp at hn; omega)]
+      simp
 
 /-- **Last/Prev visits every key exactly once in descending order** (with the repaired
     `prev`, empty leaves included), then reports nil. -/
 theorem backward_enumerates (t : Tree) (d fuel n : Nat) (hwf : BranchesNonEmpty t)
     (hd : depth t ≤ d) (hf : size t ≤ fuel) (hn : (flatten t).length ≤ n) :
     backward d fuel n t = (flatten t).reverse := by
-  sorry
+  have hres := last_spec (fuel := fuel) hwf hd hf
+  simp only [backward]
+  generalize last d fuel t = r at hres
+  obtain ⟨st', kv⟩ := r
+  cases kv with
+  | none => rw [hres.none_eq.1]; rfl
+  | some x =>
+    obtain ⟨hv', hin, _, hL⟩ := hres.found_eq
+    simp only []
+    rw [hL, iterPrev_before hwf hd hf n st' hv' (leafIn_ne_nil hin)
+      (by rw [hL] at hn; simp at hn; omega)]
+    simp
 
 /-- **Seek returns the smallest key not less than its argument** (or nil), on any
     search-tree-ordered tree, empty leaves included. -/
@@ -110,7 +173,7 @@ def f11Tree : Tree :=
 
 theorem refinement_fails_with_trailing_empty_leaf :
     runImpl 4 4 f11Tree [] [.last, .next, .prev] ≠ runSpec (specOf f11Tree) [.last, .next, .prev] := by
-  sorry
+  decide
 
 /-! ### every call returns -/
 
@@ -119,16 +182,20 @@ theorem refinement_fails_with_trailing_empty_leaf :
 theorem next_terminates (t : Tree) (d fuel : Nat) (st : Stack) (hwf : BranchesNonEmpty t)
     (hv : ValidStack t st) (hd : depth t ≤ d) (hf : size t ≤ fuel) :
     next d (fuel + 1) st = next d fuel st := by
-  sorry
+  have hv' := (validStack_iff_VS t st).mp hv
+  exact next_fuel_succ d fuel st hv' (by have := VS_sizeAfter_lt hv'; omega)
 
 theorem prev_terminates (t : Tree) (d fuel : Nat) (st : Stack) (hwf : BranchesNonEmpty t)
     (hv : ValidStack t st) (hd : depth t ≤ d) (hf : size t ≤ fuel) :
     prev d (fuel + 1) t st = prev d fuel t st := by
-  sorry
+  have hv' := (validStack_iff_VS t st).mp hv
+  simp only [prev]
+  rw [stepBack_fuel_succ d fuel st hv' (by have := VS_sizeBefore_lt hv'; omega),
+    first_fuel_succ d fuel t hf]
 
 /-- nested buckets appear with a nil value -/
 theorem bucket_value_nil (i : Item) (h : i.flags % 2 = 1) : i.view.2 = none := by
-  sorry
+  simp [Item.view, h]
 
 /-! ### non-vacuity: a concrete three-level tree with an empty leaf meets the hypotheses -/
 
@@ -137,9 +204,10 @@ def sampleTree : Tree :=
            ([5], .branch [([5], .leaf [⟨[5], [], 0⟩])])]
 
 example : BranchesNonEmpty sampleTree ∧ SearchTree sampleTree ∧ depth sampleTree ≤ 3 ∧ size sampleTree ≤ 6 := by
-  sorry
+  simp [SearchTree, sampleTree, Cur.ST, KidsST, BranchesNonEmpty, BranchesNonEmptyKids, geLo, ltHi,
+    Bytes.lt, depth, depthKids, size, sizeKids]
 
 example : forward 3 6 3 sampleTree = flatten sampleTree := by
-  sorry
+  decide
 
 end Bolt.C05
